@@ -157,6 +157,8 @@ class Ctx:
             if clause == "ok":
                 self.accepted += 1
             else:
+                e = dict(e)
+                e["_trace"] = {"module": module, "header": header or {}, "cfg": cfg_text}
                 self.failure(clause, kf, e, detail)
         return verdicts
 
@@ -245,6 +247,35 @@ def _slim(x, limit=1500):
     return s[:limit] + "...(truncated)"
 
 
+def replay(ctx, mod, path):
+    """re-judge one recorded failing case: the property module may re-drive the real code from the case recipe
+    (redrive(case) -> fresh event); the event is then validated by the same trace spec as in the original run"""
+    rec = json.load(open(path))
+    case = rec["case"]
+    tr = case.get("_trace")
+    if not tr:
+        print("replay: %s holds a model-checking counterexample (clause %s); re-run ./check %s to re-check the model" % (path, rec["clause"], ctx.pid))
+        print(str(case.get("counterexample", ""))[:3000])
+        common.rmtree(ctx.work)
+        return 1
+    ev = {k: v for k, v in case.items() if not k.startswith("_")}
+    redriven = False
+    if hasattr(mod, "redrive"):
+        fresh = mod.redrive(ev)
+        if fresh is not None:
+            ev, redriven = fresh, True
+    ev.pop("id", None)
+    ctx.validate(tr["module"], [ev], header=tr["header"], cfg_text=tr["cfg"])
+    print("replay of %s: %s on the current tree -> %s" % (path, "re-driven" if redriven else "recorded event re-judged",
+                                                          "VIOLATION " + ctx.violations[0][0] if ctx.violations else
+                                                          ("KNOWN-FINDING" if ctx.kf_hits else "ok (no longer fails)")))
+    if ctx.violations:
+        print(json.dumps(_slim(ctx.violations[0][1].get("_detail"), 1200), default=str))
+    rc = 1 if ctx.violations else 0
+    common.rmtree(ctx.work)
+    return rc
+
+
 def main(argv=None):
     import argparse
     import importlib
@@ -264,6 +295,8 @@ def main(argv=None):
         return 2
     ctx = Ctx(pid, mod.LEVEL, a.tier if a.tier in ("quick", "thorough") else "quick", seed, a.replay)
     try:
+        if a.replay and not getattr(mod, "HANDLES_REPLAY", False):
+            return replay(ctx, mod, a.replay)
         mod.run(ctx)
         return ctx.finish()
     except MachineryError as ex:
